@@ -149,6 +149,18 @@ def leancheck(modules, timeout=1800):
     return rc == 0, (out + err)[-1500:]
 
 
+def prepare_driver():
+    """Regenerate the tables from /repo's current source and rebuild the driver BEFORE any case is run, so that the
+    correspondence never runs a driver built from an earlier state of the source (a failed build is reported by
+    `prove`, which runs afterwards; the previous driver, if any, is then what the correspondence uses)."""
+    from . import translate
+    try:
+        translate.regenerate()
+    except translate.Untranslatable:
+        return
+    lake_build(['driver'])
+
+
 def prove(prop_modules, tier='quick'):
     """Regenerate tables, build model + driver + the property's theorem modules, audit axioms."""
     from . import translate
